@@ -5,8 +5,15 @@ discovery, data link connections with their MIU / receive window, real sockets, 
 SnepServer / HandoverServer threads, real clients).  Sampled full-stack validation for C06.
 Environment, not model.
 
-Only `activate / exchange / deactivate` of real nfc.dep.Initiator / nfc.dep.Target objects are
-replaced (instance attributes).  The run loops are real threads; `time.sleep` inside
+Two variants of the layer below LLCP:
+  dep=False  `activate / exchange / deactivate` of real nfc.dep.Initiator / nfc.dep.Target objects are
+             replaced (instance attributes): LLCP PDUs are handed over whole, nfc.dep is NOT in the loop.
+  dep=True   only `activate` is replaced; the real nfc.dep.Initiator.exchange / Target.exchange /
+             deactivate run (NFC-DEP information PDUs, chaining of PDUs longer than LR-3 = 251
+             octets, ACK / packet numbers, DSL) over a loopback `clf` pair that hands the NFC-DEP
+             frames to each other.  nfc.dep computes deadlines from time.time(): its `time` is a
+             virtual clock here that only advances when the loopback reports a timeout, so machine
+             load cannot make a deadline pass.  The run loops are real threads; `time.sleep` inside
 nfc.llcp.llc is shortened.  All waits have generous real-time limits which serve as deadlock
 detection only: a run that hits one is reported as inconclusive, never as a violation.
 """
@@ -47,8 +54,22 @@ class _Threading(object):
         return getattr(threading, name)
 
 
+class _DepClock(object):
+    """stands in for the `time` module inside nfc.dep: advances only on a (simulated) timeout"""
+    now = 1000.0
+
+    @classmethod
+    def time(cls):
+        return cls.now
+
+    @staticmethod
+    def sleep(s):
+        pass
+
+
 def install():
     llcmod.time = _FastTime
+    nfc.dep.time = _DepClock
     nfc.snep.server.threading = _Threading()
     nfc.handover.server.threading = _Threading()
 
@@ -124,13 +145,73 @@ def make_macs(pipe):
     return ini, tgt
 
 
+class _LoopClf(object):
+    """the `clf` of a real nfc.dep.Initiator / Target: exchange() moves one NFC-DEP frame each way"""
+
+    def __init__(self, pipe, role):
+        self.pipe = pipe
+        self.role = role
+
+    def _recv(self, q, timeout):
+        if timeout is not None and timeout <= 0:
+            raise nfc.clf.TimeoutError("sim: no time left")
+        try:
+            return bytearray(self.pipe._get(q))
+        except nfc.clf.TimeoutError:
+            _DepClock.now += 10.0        # the only way simulated time passes
+            raise
+
+    def exchange(self, data, timeout):
+        if self.role == 'i':
+            self.pipe.frames.append(('i', bytes(data)))
+            self.pipe.i2t.put(bytes(data))
+            return self._recv(self.pipe.t2i, timeout)
+        if data is not None:
+            self.pipe.frames.append(('t', bytes(data)))
+            self.pipe.t2i.put(bytes(data))
+        return self._recv(self.pipe.i2t, timeout)
+
+
+def make_dep_macs(pipe, lr=254):
+    """real nfc.dep objects with their real exchange()/deactivate(); only the activation (ATR exchange,
+    parameter selection) is replaced: general bytes are swapped, MIU = LR - 3, DID/NAD unused"""
+    ini = nfc.dep.Initiator(clf=_LoopClf(pipe, 'i'))
+    tgt = nfc.dep.Target(clf=_LoopClf(pipe, 't'))
+
+    def ini_activate(target=None, **options):
+        ini.did = ini.nad = None
+        ini.target = nfc.clf.RemoteTarget("424F")
+        pipe.act_i.put(bytes(options.get('gbi', b'')))
+        ini.gbt = bytearray(pipe._get(pipe.act_t))
+        ini.miu = lr - 3
+        ini.rwt = 0.3
+        ini.pni = 0
+        return ini.gbt
+
+    def tgt_activate(timeout=None, **options):
+        tgt.did = tgt.nad = None
+        tgt.target = nfc.clf.LocalTarget("424F")
+        tgt.gbi = bytearray(pipe._get(pipe.act_i))
+        pipe.act_t.put(bytes(options.get('gbt', b'')))
+        tgt.miu = lr - 3
+        tgt.rwt = 0.3
+        tgt.pni = None
+        tgt.acm = False
+        tgt.cmd = bytearray(pipe._get(pipe.i2t))     # the first command frame is captured in activate
+        return tgt.gbi
+
+    ini.activate, tgt.activate = ini_activate, tgt_activate
+    return ini, tgt
+
+
 class Link(object):
     """llc['i'] runs as initiator, llc['t'] as target"""
 
-    def __init__(self, opt_i, opt_t):
+    def __init__(self, opt_i, opt_t, dep=False):
         install()
         self.pipe = Pipe()
-        self.mac_i, self.mac_t = make_macs(self.pipe)
+        self.dep = dep
+        self.mac_i, self.mac_t = make_dep_macs(self.pipe) if dep else make_macs(self.pipe)
         self.llc = {'i': llcmod.LogicalLinkController(**opt_i), 't': llcmod.LogicalLinkController(**opt_t)}
         self.stop = False
         self.threads = []
